@@ -1157,6 +1157,20 @@ impl<'ast, 'res> Resolver<'ast, 'res> {
                         } else {
                             class = class.join(ExprClass::Impure);
                         }
+                        // Whether the receiver has this method is only known at run time
+                        // unless its type is: the call can end with a type mismatch error.
+                        if !matches!(
+                            self.infer_expr_type(object),
+                            Some(
+                                ValueType::String
+                                    | ValueType::Array
+                                    | ValueType::Number
+                                    | ValueType::ProcessCommand
+                                    | ValueType::ProcessResult
+                            )
+                        ) {
+                            class = class.join(ExprClass::PureMayTrap);
+                        }
                     }
                     _ => class = class.join(ExprClass::Impure),
                 }
